@@ -532,6 +532,19 @@ class BuiltinsMixin:
             return VStr(r)
         if name == "split" and len(args) == 1 and isinstance(args[0], VStr):
             return self.str_split(recv, args[0], st)
+        if name == "format":
+            # template.format(...) : an uninterpreted function of the
+            # template and the (string) arguments, keywords in name order
+            vals = list(args) + [kw[k] for k in sorted(kw)]
+            if not all(isinstance(v, VStr) for v in vals):
+                raise Unsupported("str.format with non-string arguments")
+            f = self.uni.uf("str_format_" + "_".join(
+                [str(len(args))] + sorted(kw)), ["str"] * (len(vals) + 1),
+                "str")
+            self.uni.note_assumption(
+                "str.format is an uninterpreted function of the template "
+                "and its arguments")
+            return VStr(f(s, *[v.e for v in vals]))
         if name == "join":
             raise Unsupported("str.join")
         raise Unsupported(f"str.{name}")
